@@ -81,7 +81,7 @@ class C04(Prop):
                    'statement\'s "patch-unfolded and spatially normalised"',
                    'inputs/output gradients are quantised to the factor dtype before the second moment (as "stored in the requested dtype" implies)',
                    'equal per-rank batch sizes in the multi-rank part']
-    examples = {'quick': 120, 'thorough': 700}
+    examples = {'quick': 200, 'thorough': 700}
     shards = {'quick': 4, 'thorough': 16}
     shrink_budget_s = {'quick': 30.0, 'thorough': 180.0}
     required_labels = {'quick': ['nontrivial=True', 'kind=single', 'kind=multi', 'loss_scale=True', 'factor_dtype=bfloat16'],
